@@ -66,9 +66,14 @@ type Case struct {
 
 func newApp(c Case) *fiber.App {
 	app := fiber.New(fiber.Config{Views: vk.Views{}, PassLocalsToViews: true, Immutable: c.Immutable})
+	// template variables every page gets: one long-lived map of the application, bound by whoever renders
+	siteVars := fiber.Map{"site": "example.org"}
 	app.All("/dirty/:p1/:p2?", func(ctx fiber.Ctx) error {
 		for _, a := range strings.Split(ctx.Query("acts"), ",") {
 			switch a {
+			case "sitebind":
+				_ = ctx.ViewBind(siteVars)
+				_ = ctx.ViewBind(fiber.Map{"user": "u-" + ctx.Params("p1")})
 			case "locals":
 				ctx.Locals("lk", "lv-"+ctx.Params("p1"))
 				ctx.Locals("other", 42)
@@ -144,6 +149,7 @@ func newApp(c Case) *fiber.App {
 		}
 		ctx.Set("X-Obs-Len", fmt.Sprint(len(obs)))
 		ctx.Set("X-Neg", neg)
+		_ = ctx.ViewBind(siteVars)
 		return ctx.Render("tpl", fiber.Map{"own": "1", "obs": strings.Join(obs, "\n")})
 	})
 	return app
@@ -361,7 +367,7 @@ func firstDiff(a, b string) string {
 
 // ---- generator ------------------------------------------------------------------------------------------
 
-var allActs = []string{"locals", "viewbind", "hdr", "redir", "redirinput", "redirprep", "redirback", "redirroute", "bindauto", "bindbody", "path", "method", "err", "status", "observe", "json", "render", "type", "sendfile", "sendfilemax", "sendfiledl"}
+var allActs = []string{"locals", "viewbind", "sitebind", "hdr", "redir", "redirinput", "redirprep", "redirback", "redirroute", "bindauto", "bindbody", "path", "method", "err", "status", "observe", "json", "render", "type", "sendfile", "sendfilemax", "sendfiledl"}
 
 // assetPath: a small committed file served by the SendFile actions (the test binary runs in the package directory)
 const assetPath = "testdata/asset.txt"
